@@ -194,8 +194,9 @@ func (b *Buffer) checkCommit(dig ociregistry.Digest) (err error) {
 			b.commitErr = err
 		}
 	}()
-	if digest.FromBytes(b.buf) != dig {
-		return fmt.Errorf("digest mismatch (sha256(%q) != %s): %w", b.buf, dig, ociregistry.ErrDigestInvalid)
+	if got := digest.FromBytes(b.buf); got != dig {
+		// Note: don't include the content itself in the message: it can be arbitrarily large.
+		return fmt.Errorf("digest mismatch (content has digest %s, not %s): %w", got, dig, ociregistry.ErrDigestInvalid)
 	}
 	b.desc = ociregistry.Descriptor{
 		MediaType: "application/octet-stream",
